@@ -27,3 +27,19 @@ package token
 //@                          && has(byMinUnit, data.Tokens[j].MinUnit) && get(byMinUnit, data.Tokens[j].MinUnit) == data.Tokens[j].Symbol
 //@   ensures @C09,C12 burned_imported: forall j:Int :: 0 <= j && j < len(data.BurnedCoins) ==> has(burned, data.BurnedCoins[j].Denom) && get(burned, data.BurnedCoins[j].Denom) == data.BurnedCoins[j]
 //@ end
+
+// Genesis export (C12): the parameters as stored, every stored token (record as stored) and every burned-coin total.
+//@ func ExportGenesis(ctx, k)
+//@   property C09, C12
+//@   returns gs
+//@   invariant @GetTokens #1 pos:    0 <= it_idx && it_idx <= it_n && len(l_tokens) == it_idx
+//@   invariant @GetTokens #1 listed: forall j:Int :: 0 <= j && j < it_idx ==> l_tokens[j] == get(tokens, it_seq[j])
+//@   invariant #1 idx:    rangeindex >= 0 - 1 && rangeindex < len(rangeover) && len(l_tokens) == rangeindex + 1
+//@   invariant #1 copied: forall j:Int :: 0 <= j && j <= rangeindex ==> l_tokens[j] == rangeover[j]
+//@   invariant #1 src:    forall s:Str :: has(tokens, s) ==> (exists m:Int :: 0 <= m && m < len(rangeover) && rangeover[m] == get(tokens, s))
+//@   invariant @GetAllBurnCoin #1 pos:    0 <= it_idx && it_idx <= it_n && len(coins) == it_idx
+//@   invariant @GetAllBurnCoin #1 listed: forall j:Int :: 0 <= j && j < it_idx ==> coins[j] == get(burned, it_seq[j])
+//@   ensures params: has(prm) ==> gs.Params == get(prm)
+//@   ensures tokens_listed: forall s:Str :: has(tokens, s) ==> (exists m:Int :: 0 <= m && m < len(gs.Tokens) && gs.Tokens[m] == get(tokens, s))
+//@   ensures burned_listed: forall d:Str :: has(burned, d) ==> (exists m:Int :: 0 <= m && m < len(gs.BurnedCoins) && gs.BurnedCoins[m] == get(burned, d))
+//@ end
